@@ -188,8 +188,8 @@ def half_items(tier):
 
 
 def wide_float_items(tier):
-    out = {'68000': [], '8086': []}
-    xs = [0.0, 1.0, -1.0, 1.5, -2.5, 0.1, 1e10, 1e-10, 3.141592653589793, 65504.0, 1e38, 3.4028234663852886e38, 1.1754943508222875e-38, 1e-40, 1.401298464324817e-45,
+    out = {'68000': [], '8086': [], '320c25': []}
+    xs = [0.0, 1e39, -1e39, 1e200, 1.0, -1.0, 1.5, -2.5, 0.1, 1e10, 1e-10, 3.141592653589793, 65504.0, 1e38, 3.4028234663852886e38, 1.1754943508222875e-38, 1e-40, 1.401298464324817e-45,
           7e-46, 1e308, 2.2250738585072014e-308, 5e-324, 1e-320]
     if tier != 'quick':
         for e in range(-149, 128):
@@ -218,6 +218,8 @@ def wide_float_items(tier):
         if not (fmax < abs(x) < 3.4028235677973366e38):
             out['68000'].append({'line': '\tdc.s %s' % lit, 'want': 'ERR' if s is None else s.to_bytes(4, 'big').hex(), 'sig': '68000/dc.s'})
             out['8086'].append({'line': '\tdd %s' % lit, 'want': 'ERR' if s is None else s.to_bytes(4, 'little').hex(), 'sig': '8086/dd/float'})
+            # TI FLOAT: IEEE single as two 16-bit words, low word first
+            out['320c25'].append({'line': '\tfloat %s' % lit, 'want': 'ERR' if s is None else s.to_bytes(4, 'little').hex(), 'sig': '320c25/float'})
         out['68000'].append({'line': '\tdc.d %s' % lit, 'want': d.to_bytes(8, 'big').hex(), 'sig': '68000/dc.d'})
         out['8086'].append({'line': '\tdq %s' % lit, 'want': d.to_bytes(8, 'little').hex(), 'sig': '8086/dq/float'})
         # extended: 80-bit little endian on x86; 96-bit (sign+exponent, 16 zero bits, 64-bit mantissa) big endian on 68k
